@@ -1,6 +1,6 @@
 (* C14 — read-only and copy-making operations leave a template unchanged.
    Statements only; every proof is `exact <lemma of MutationProofs>` or a computed witness.
-   `mstep` / `mrun` = the code as it is: mstep_gen fixed_state_carry fixed_shared_edge_dicts fixed_D98 = mstep_gen true true false (stage 1 of repair D98). *)
+   `mstep` / `mrun` = the code as it is: mstep_gen fixed_state_carry fixed_shared_edge_dicts fixed_D98 = mstep_gen true true true. *)
 From Coq Require Import List String ZArith QArith Qcanon Bool Arith.
 From PV Require Import Heap Values ValuesProofs Mutation MutationProofs.
 Import ListNotations.
@@ -28,14 +28,20 @@ Print Assumptions C14_frame_any_sequence.
 Definition C14_full_statement (fixed fixed_e f98 : bool) : Prop := forall d r t ops h, abs d h r = Some t ->
   snd (mrun_gen fixed fixed_e f98 d r (h, book0) ops) = map (mstepS d t) ops.
 
-(* The code as it is (fixes D74 and D82 in, D98 prepared): the full statement for every sequence without collect_edges /
-   get_edges calls — the guard of the open finding D98; it vanishes when Mutation.fixed_D98 is switched to true. *)
-Theorem C14_partial : forall d r t ops h, abs d h r = Some t -> ops_ok fixed_shared_edge_dicts fixed_D98 ops = true ->
-  snd (mrun d r (h, book0) ops) = map (mstepS d t) ops.
-Proof. exact outputs_refine_head. Qed.
-Print Assumptions C14_partial.
+(* Headline, the code as it is (fixes D74, D82 and D98 in): the full statement for EVERY sequence of the listed operations,
+   no hypothesis besides the existence of the denotation *)
+Theorem C14_full : C14_full_statement fixed_state_carry fixed_shared_edge_dicts fixed_D98.
+Proof. exact outputs_refine_now. Qed.
+Print Assumptions C14_full.
 
-(* with the repair fix_D98 (collect_edges prefixes in a copy): no hypothesis *)
+(* the mechanisms before the fixes satisfied it for the sequences that `ops_ok` admits (no derive-and-edit before D82,
+   no collect_edges / get_edges before D98) *)
+Theorem C14_partial_before_fix : forall fe f98 d r t ops h, abs d h r = Some t -> ops_ok fe f98 ops = true ->
+  snd (mrun_gen true fe f98 d r (h, book0) ops) = map (mstepS d t) ops.
+Proof. exact outputs_refine_fixed. Qed.
+Print Assumptions C14_partial_before_fix.
+
+(* the same, stated for the explicit switch values *)
 Theorem C14_full_when_fixed : C14_full_statement true true true.
 Proof. exact outputs_refine_all. Qed.
 Print Assumptions C14_full_when_fixed.
@@ -88,7 +94,7 @@ Example C14_nonvacuous :
 Proof. split; [eexists; split; vm_compute; reflexivity|apply Nat.ltb_lt; vm_compute; reflexivity]. Qed.
 Print Assumptions C14_nonvacuous.
 
-(* finding D98 (open until fix_D98 lands): a sub-circuit edge goes through an edge template whose extra input is the variable
+(* former finding D98 (repaired; kept as `_before_fix` statement and regression witness): a sub-circuit edge goes through an edge template whose extra input is the variable
    path C/op/x (a Ref attribute).  Every get_edges / collect_edges call on the parent prefixes that path in the
    sub-circuit's own dictionary: the second call returns c1/c1/C/op/x, and the template's denotation has changed. *)
 Definition r_heap : heap :=
